@@ -127,6 +127,20 @@ const COOKIE_HMAC_LEN: usize = 20; // SHA1 output
 const COOKIE_TIMESTAMP_LEN: usize = 8; // u64 millis
 const COOKIE_TOTAL_LEN: usize = COOKIE_TIMESTAMP_LEN + COOKIE_HMAC_LEN;
 const COOKIE_LIFETIME_MS: u64 = 60_000;
+// Association parameters carried (and HMAC-protected) inside the state cookie so
+// that the association installed on COOKIE-ECHO is the one described by the
+// INIT-ACK the peer actually acted on, whatever INITs were processed meanwhile:
+// local tag, local initial TSN, peer tag, peer initial TSN, peer a_rwnd.
+const COOKIE_STATE_LEN: usize = 20;
+
+#[derive(Debug, Clone, Copy, PartialEq, Eq)]
+struct CookieState {
+    local_tag: u32,
+    local_initial_tsn: u32,
+    peer_tag: u32,
+    peer_initial_tsn: u32,
+    peer_rwnd: u32,
+}
 
 #[derive(Debug, Clone)]
 pub(crate) struct ChunkRecord {
@@ -1310,38 +1324,46 @@ impl SctpInner {
         self.t1_failures.store(0, Ordering::SeqCst);
     }
 
-    fn generate_cookie(&self) -> Vec<u8> {
+    fn generate_cookie(&self, st: &CookieState) -> Vec<u8> {
         use std::time::{SystemTime, UNIX_EPOCH};
         let now_ms = SystemTime::now()
             .duration_since(UNIX_EPOCH)
             .unwrap_or_default()
             .as_millis() as u64;
-        let timestamp = now_ms.to_be_bytes();
+        let mut cookie = Vec::with_capacity(COOKIE_TOTAL_LEN + COOKIE_STATE_LEN);
+        cookie.extend_from_slice(&now_ms.to_be_bytes());
+        for v in [
+            st.local_tag,
+            st.local_initial_tsn,
+            st.peer_tag,
+            st.peer_initial_tsn,
+            st.peer_rwnd,
+        ] {
+            cookie.extend_from_slice(&v.to_be_bytes());
+        }
         let mut mac = <HmacSha1 as hmac::digest::KeyInit>::new_from_slice(&self.cookie_hmac_key)
             .expect("HMAC key length is valid");
-        mac.update(&timestamp);
+        mac.update(&cookie);
         let result = mac.finalize();
-        let mut cookie = Vec::with_capacity(COOKIE_TOTAL_LEN);
-        cookie.extend_from_slice(&timestamp);
         cookie.extend_from_slice(&result.into_bytes());
         cookie
     }
 
-    fn validate_cookie(&self, cookie: &[u8]) -> bool {
+    fn validate_cookie(&self, cookie: &[u8]) -> Option<CookieState> {
         use std::time::{SystemTime, UNIX_EPOCH};
-        if cookie.len() != COOKIE_TOTAL_LEN {
-            return false;
+        if cookie.len() != COOKIE_TOTAL_LEN + COOKIE_STATE_LEN {
+            return None;
         }
-        let timestamp = &cookie[..COOKIE_TIMESTAMP_LEN];
-        let received_mac = &cookie[COOKIE_TIMESTAMP_LEN..];
+        let signed = &cookie[..COOKIE_TIMESTAMP_LEN + COOKIE_STATE_LEN];
+        let received_mac = &cookie[COOKIE_TIMESTAMP_LEN + COOKIE_STATE_LEN..];
         let mut mac = <HmacSha1 as hmac::digest::KeyInit>::new_from_slice(&self.cookie_hmac_key)
             .expect("HMAC key length is valid");
-        mac.update(timestamp);
+        mac.update(signed);
         if mac.verify_slice(received_mac).is_err() {
-            return false;
+            return None;
         }
         let stamp_ms = u64::from_be_bytes(
-            timestamp
+            signed[..COOKIE_TIMESTAMP_LEN]
                 .try_into()
                 .expect("COOKIE_TIMESTAMP_LEN must be 8"),
         );
@@ -1350,9 +1372,19 @@ impl SctpInner {
             .unwrap_or_default()
             .as_millis() as u64;
         if now_ms < stamp_ms || now_ms - stamp_ms > COOKIE_LIFETIME_MS {
-            return false;
+            return None;
         }
-        true
+        let word = |i: usize| {
+            let o = COOKIE_TIMESTAMP_LEN + 4 * i;
+            u32::from_be_bytes([signed[o], signed[o + 1], signed[o + 2], signed[o + 3]])
+        };
+        Some(CookieState {
+            local_tag: word(0),
+            local_initial_tsn: word(1),
+            peer_tag: word(2),
+            peer_initial_tsn: word(3),
+            peer_rwnd: word(4),
+        })
     }
 
     // aiortc-style T3 expiry logic
@@ -1674,6 +1706,14 @@ impl SctpInner {
         let _outbound_streams = buf.get_u16();
         let _inbound_streams = buf.get_u16();
         let initial_tsn = buf.get_u32();
+        let peer_initial_tsn = initial_tsn;
+
+        // A duplicated or late INIT must not disturb an established association
+        // (RFC 4960 §5.2.2: the existing association state is left untouched).
+        if *self.state.lock() == SctpState::Connected {
+            debug!("SCTP: ignoring INIT received on an established association");
+            return Ok(());
+        }
 
         self.peer_rwnd.store(a_rwnd, Ordering::SeqCst);
         let init_ssthresh = (a_rwnd as usize).max(SSTHRESH_MIN);
@@ -1686,9 +1726,6 @@ impl SctpInner {
         // Generate local tag
         let local_tag = random_u32();
         self.verification_tag.store(local_tag, Ordering::SeqCst);
-
-        // Generate HMAC-protected state cookie
-        let cookie = self.generate_cookie();
 
         let mut init_ack_params = BytesMut::new();
         // Initiate Tag
@@ -1705,6 +1742,15 @@ impl SctpInner {
         let initial_tsn = crate::verif::sctp_initial_tsn().unwrap_or(initial_tsn);
         self.next_tsn.store(initial_tsn, Ordering::SeqCst);
         init_ack_params.put_u32(initial_tsn);
+
+        // Generate HMAC-protected state cookie describing exactly this INIT-ACK
+        let cookie = self.generate_cookie(&CookieState {
+            local_tag,
+            local_initial_tsn: initial_tsn,
+            peer_tag: initiate_tag,
+            peer_initial_tsn,
+            peer_rwnd: a_rwnd,
+        });
 
         // Forward TSN (Type 0xC000)
         init_ack_params.put_u16(0xC000);
@@ -1733,6 +1779,12 @@ impl SctpInner {
     }
 
     async fn handle_init_ack(&self, chunk: Bytes) -> Result<()> {
+        // RFC 4960 §5.2.3: an INIT ACK received in any state other than
+        // COOKIE-WAIT (T1 running for our INIT) is discarded.
+        if !matches!(&*self.t1_chunk.lock(), Some((CT_INIT, _, _))) {
+            debug!("SCTP: discarding INIT-ACK received outside COOKIE-WAIT");
+            return Ok(());
+        }
         self.t1_cancel();
 
         let mut buf = chunk;
@@ -1786,6 +1838,12 @@ impl SctpInner {
     }
 
     async fn handle_cookie_ack(&self, _chunk: Bytes) -> Result<()> {
+        // RFC 4960 §5.2.5: a COOKIE ACK received in any state other than
+        // COOKIE-ECHOED (T1 running for our COOKIE ECHO) is discarded.
+        if !matches!(&*self.t1_chunk.lock(), Some((CT_COOKIE_ECHO, _, _))) {
+            debug!("SCTP: discarding COOKIE-ACK received outside COOKIE-ECHOED");
+            return Ok(());
+        }
         self.t1_cancel();
         *self.state.lock() = SctpState::Connected;
         self.advanced_peer_ack_tsn.store(
@@ -2190,10 +2248,32 @@ impl SctpInner {
     }
 
     async fn handle_cookie_echo(&self, chunk: Bytes) -> Result<()> {
-        if !self.validate_cookie(&chunk) {
+        let Some(cookie_state) = self.validate_cookie(&chunk) else {
             debug!("SCTP: Invalid or expired cookie, ignoring COOKIE-ECHO");
             return Ok(());
+        };
+
+        // Duplicate COOKIE-ECHO on an established association (RFC 4960 §5.2.4):
+        // acknowledge it again, leave the association and its channels alone.
+        if *self.state.lock() == SctpState::Connected {
+            let tag = self.remote_verification_tag.load(Ordering::SeqCst);
+            self.send_chunk(CT_COOKIE_ACK, 0, Bytes::new(), tag).await?;
+            return Ok(());
         }
+
+        // Install the association described by the cookie the peer echoed.
+        self.verification_tag
+            .store(cookie_state.local_tag, Ordering::SeqCst);
+        self.next_tsn
+            .store(cookie_state.local_initial_tsn, Ordering::SeqCst);
+        self.remote_verification_tag
+            .store(cookie_state.peer_tag, Ordering::SeqCst);
+        self.cumulative_tsn_ack.store(
+            cookie_state.peer_initial_tsn.wrapping_sub(1),
+            Ordering::SeqCst,
+        );
+        self.peer_rwnd
+            .store(cookie_state.peer_rwnd, Ordering::SeqCst);
 
         // Send COOKIE ACK
         let tag = self.remote_verification_tag.load(Ordering::SeqCst);
